@@ -6,6 +6,8 @@ set -u
 WT=$1; OUT=$2; NAME=$3
 V=$(cd "$(dirname "$0")/.." && pwd)
 cd "$WT" || exit 2
+# the worktree must carry exactly the agent's patch
+if [ -s "$OUT/patch.diff" ]; then git checkout -q -- . && git apply "$OUT/patch.diff" || { echo "agent patch does not apply"; exit 2; }; fi
 git diff -- src include > /tmp/confirm_$NAME.diff
 if ! [ -s /tmp/confirm_$NAME.diff ]; then echo "no diff in worktree"; exit 2; fi
 log=/tmp/confirm_$NAME.log; : > $log
@@ -17,10 +19,12 @@ echo "ctest with change: $tests"
 grep -q "100% tests passed" /tmp/confirm_$NAME.ctest || { echo "TESTS FAIL with change"; exit 1; }
 bash "$OUT/demo.sh" "$WT" > /tmp/confirm_$NAME.demo_with 2>&1; rc_with=$?
 echo "demo with change: rc=$rc_with: $(tail -2 /tmp/confirm_$NAME.demo_with | tr '\n' ' ')"
-git stash -q || exit 2
+# NOTE: never git stash here - the stash is shared between all worktrees of a repository
+git apply -R /tmp/confirm_$NAME.diff || exit 2
 build; bash "$OUT/demo.sh" "$WT" > /tmp/confirm_$NAME.demo_without 2>&1; rc_without=$?
 echo "demo without change: rc=$rc_without: $(tail -2 /tmp/confirm_$NAME.demo_without | tr '\n' ' ')"
-git stash pop -q || exit 2
+git apply /tmp/confirm_$NAME.diff || exit 2
+build
 if [ $rc_with -ne 0 ] && [ $rc_without -eq 0 ]; then
   mkdir -p "$V/seeded/$NAME"
   cp /tmp/confirm_$NAME.diff "$V/seeded/$NAME/patch.diff"
